@@ -5,5 +5,15 @@ from vlib import dispatch_check, runner
 def check(tier):
     chk = runner.Check("C14", tier)
     dispatch_check.run(chk, "C14", tier)
-    chk.ev.coverage["explanation"] = "placeholder"
+    chk.ev.coverage["stubs"] = ["converter.structure(obj, attrs class) and _structure_func.dispatch(attrs class) return a Dispatched(cls, obj) token (the cut; recursive descent is replaced by the class lemma of the chosen class)", "format(symbolic, '') -> '<sym>'", "cattrs code generation under NoTracing", "handler lookup memoised outside tracing (lru_cache bypass)"]
+    chk.ev.coverage["outside_bounds"] = ["values nested deeper than the bound below a union as seen by a hook (covered by the induction of DESIGN 3.5, not by a lemma)", "arrays longer than the bound at hook-inspected positions", "strings longer than the bound"]
+    chk.ev.assumptions += ["cattrs generic machinery (_structure_list/_dict/_tuple/_optional, _unstructure_union, primitive coercion) behaves as documented (exercised concretely by the root round trips)", "CrossHair 0.0.110 and z3 5.1 are sound"]
+    chk.ev.coverage["rule"] = "one lemma per (union position, metamodel alternative); all presence subsets of optional keys, array lengths up to the bound and symbolic leaf strings/ints are solver variables; non-trivial = at least one symbolic variable and reachability twin violated"
+    chk.ev.coverage["explanation"] = (
+        "Every place where lsp.json uses an `or` type is located by walking the metamodel and the resolved attrs annotations in parallel (properties, array elements, map values, "
+        "params, results, request ids, alias objects). For each position and each metamodel alternative CrossHair executes the REAL handler the converter uses for that annotation "
+        "(the hook closure of _hooks.py or cattrs' default union disambiguator) on a lazily symbolic JSON value that ranges over every strictly valid value of the alternative within the bounds; "
+        "the assertion is: no exception, a handler exists, and each object is handed unchanged to a class that is an alternative of the union and for which the value is strictly valid. "
+        "Counterexamples are concretised, embedded in a message and replayed on lsprotocol.converters.get_converter()."
+    )
     return chk.finish()
